@@ -2,3 +2,4 @@
 pub mod util;
 pub mod stubs;
 pub mod eutil;
+pub mod trie;
